@@ -11,5 +11,6 @@ CONSTANTS Kinds = {"plain", "mixed", "enc", "root"}
           CoreServers = {}
           Slice = 8
           Seed = 1
+          DesignAll = TRUE
 INVARIANTS DesignOK Emit
 CHECK_DEADLOCK FALSE
